@@ -379,6 +379,58 @@ func (fr *Frame) oblige(kind string, ord int, suffix string, tags []string, st *
 	fr.run.obligs = append(fr.run.obligs, o)
 }
 
+// obligeSplit emits one obligation per quantified conjunct of the goal when there are several (names
+// <base>/q1, /q2, ... before the anchor suffix) and one for the quantifier-free rest under the plain name:
+// a conjunction of universals negates to a disjunction of existentials, which is much harder to refute
+// in one query than conjunct by conjunct.
+func (fr *Frame) obligeSplit(kind string, ord int, suffix string, tags []string, st *State, goal *Term, text string, pos token.Pos) {
+	// A ==> (B1 && B2 && ...): split the consequent, each part under the same antecedent
+	if goal.kind == 'a' && goal.op == "=>" && len(goal.args) == 2 {
+		ant, cons := goal.args[0], goal.args[1]
+		nqc := 0
+		for _, cj := range conjuncts(cons) {
+			if hasQuant(cj) {
+				nqc++
+			}
+		}
+		if nqc >= 2 {
+			var plain []*Term
+			k := 0
+			for _, cj := range conjuncts(cons) {
+				if hasQuant(cj) {
+					k++
+					fr.oblige(kind, ord, fmt.Sprintf("/q%d%s", k, suffix), tags, st, Implies(ant, cj), text, pos)
+				} else {
+					plain = append(plain, cj)
+				}
+			}
+			fr.oblige(kind, ord, suffix, tags, st, Implies(ant, And(plain...)), text, pos)
+			return
+		}
+	}
+	nq := 0
+	for _, cj := range conjuncts(goal) {
+		if hasQuant(cj) {
+			nq++
+		}
+	}
+	if nq < 2 {
+		fr.oblige(kind, ord, suffix, tags, st, goal, text, pos)
+		return
+	}
+	var plain []*Term
+	k := 0
+	for _, cj := range conjuncts(goal) {
+		if hasQuant(cj) {
+			k++
+			fr.oblige(kind, ord, fmt.Sprintf("/q%d%s", k, suffix), tags, st, cj, text, pos)
+		} else {
+			plain = append(plain, cj)
+		}
+	}
+	fr.oblige(kind, ord, suffix, tags, st, And(plain...), text, pos)
+}
+
 func (fr *Frame) safetyOn(kind string) ([]string, bool) {
 	c := fr.run.contract
 	if c == nil {
